@@ -620,9 +620,9 @@ func main() {
 	r.Rule = "case = one history: a fresh agessh.EncryptedSSHIdentity (declared public key, encrypted private-key file) and a sequence of age.Decrypt calls on that one value, " +
 		"each step = (file kind, passphrase-callback behaviour right/wrong/error); evaluations = histories executed; every step of every history is compared with the 1-bit model " +
 		"(number of callback invocations, outcome class plaintext-equal / no-match / other error); distinct by (identity configuration, full step sequence). " +
-		"exhaustive refers to the Ed25519 spaces: all histories up to the stated length over the stated alphabet for the consistent and the inconsistent identity; RSA and cross-type identities are sampled"
+		"exhaustive refers to the Ed25519 spaces (all histories up to the stated length over the stated alphabet for the consistent and the inconsistent identity) and to all histories of length <= 2 on the consistent 2500-bit and 2052-bit RSA identities; the other RSA and the cross-type identities are sampled"
 	r.Assumptions = []string{
-		"fixed key files: OpenSSH/bcrypt (ssh-keygen -a 2) Ed25519 and RSA, legacy PEM (AES-128-CBC) RSA; one right passphrase; wrong = another string, passphrase plus a space, empty, nil",
+		"fixed key files: OpenSSH/bcrypt (ssh-keygen -a 2) Ed25519 and RSA, legacy PEM (AES-128-CBC) RSA; RSA moduli of 2048, 2500 and 2052 bits; one right passphrase; wrong = another string, passphrase plus a space, empty, nil",
 		"every step is age.Decrypt with the identity as the only identity, on a well-formed file built by refage; a stanza of the identity's type without arguments is outside the alphabet (C14)",
 		"histories are sequential (C20 covers sharing); the identity value is never copied",
 		"thorough length-4 enumeration folds the four multi-stanza positions into one symbol whose position is fixed per (history, step); all four positions are separate symbols up to length 3",
@@ -642,6 +642,11 @@ func main() {
 	encRsa1 := rsaParty("enc_rsa1", keys.DecryptedRSA("enc_rsa1"))
 	rsa2 := rsaParty("rsa2", keys.DecryptedRSA("enc_rsa_pem"))
 	r1 := rsaParty("rsa1", keys.LoadRSA("rsa1"))
+	// RSA keys whose modulus length is not a multiple of 8 bits: the stanza body
+	// is ceil(bits/8) bytes long
+	encRsa2500 := rsaParty("enc_rsa2500", keys.DecryptedRSA("enc_rsa2500"))
+	encRsa2052 := rsaParty("enc_rsa2052", keys.DecryptedRSA("enc_rsa2052"))
+	r4 := rsaParty("rsa2500", keys.LoadRSA("rsa2500"))
 	x := keys.NewX("X1")
 	x1 := &party{name: "X1", typ: "X25519", xPub: x.Public, ref: x.Ref, plain: x.Identity()}
 
@@ -655,7 +660,14 @@ func main() {
 	rsaInconsO := newConf("rsa-inconsistent-openssh-stored", "enc_rsa_pem", "enc_rsa1", "openssh-bcrypt", rsa2, encRsa1, r1, e1, x1)
 	crossER := newConf("cross-ed25519-declared-rsa-stored", "enc_ed1", "enc_rsa_pem", "legacy-pem", encEd1, rsa2, e1, r1, x1)
 	crossRE := newConf("cross-rsa-declared-ed25519-stored", "enc_rsa1", "enc_ed2", "openssh-bcrypt", encRsa1, encEd2, r1, e1, x1)
-	all := []*idConf{edCons, edIncons, edCons2, edIncons2, rsaConsO, rsaConsP, rsaInconsP, rsaInconsO, crossER, crossRE}
+	// odd-size RSA: "unrelated same type" is another 2500-bit key, so its stanza
+	// has the same body length as the matching one
+	rsa2500Cons := newConf("rsa2500-consistent", "enc_rsa2500", "enc_rsa2500", "openssh-bcrypt", encRsa2500, encRsa2500, r4, e1, x1)
+	rsa2052Cons := newConf("rsa2052-consistent", "enc_rsa2052", "enc_rsa2052", "openssh-bcrypt", encRsa2052, encRsa2052, r1, e1, x1)
+	rsaOddIncons := newConf("rsa-inconsistent-2500-declared-2052-stored", "enc_rsa2500", "enc_rsa2052", "openssh-bcrypt", encRsa2500, encRsa2052, r4, e1, x1)
+	rsaOddIncons2 := newConf("rsa-inconsistent-2052-declared-2500-stored", "enc_rsa2052", "enc_rsa2500", "openssh-bcrypt", encRsa2052, encRsa2500, r4, e1, x1)
+	all := []*idConf{edCons, edIncons, edCons2, edIncons2, rsaConsO, rsaConsP, rsaInconsP, rsaInconsO, crossER, crossRE,
+		rsa2500Cons, rsa2052Cons, rsaOddIncons, rsaOddIncons2}
 
 	// start-up sanity: the workload is what it claims to be (else inconclusive, never a verdict)
 	for _, c := range all {
@@ -679,6 +691,12 @@ func main() {
 				if p == c.D {
 					wantPos = i
 					break
+				}
+			}
+			for i, p := range f.parties {
+				if p.typ == "ssh-rsa" && len(f.stanzas[i].Body) != (p.rsaPub.N.BitLen()+7)/8 {
+					r.Inconclusive("%s file %s: ssh-rsa stanza %d has a %d-byte body for a %d-bit key", c.name, f.name, i, len(f.stanzas[i].Body), p.rsaPub.N.BitLen())
+					r.Count("sanity_failures", 1)
 				}
 			}
 			if f.matchPos != wantPos {
@@ -716,8 +734,14 @@ func main() {
 		}
 	}
 	r.Set("max_history_length_enumerated", r.Pick(3, 4))
+	// RSA keys of 2500 and 2052 bits: all histories of length <= 2 on the
+	// consistent identities (both tiers), sampled length-6 histories on all four
+	for _, c := range []*idConf{rsa2500Cons, rsa2052Cons} {
+		batches = append(batches, enumBatch(c, "all-histories-len<=2", alphabetOf(c.base), 2))
+	}
+	r.Set("rsa_modulus_bits", []int{encRsa1.rsaPub.N.BitLen(), rsa2.rsaPub.N.BitLen(), encRsa2500.rsaPub.N.BitLen(), encRsa2052.rsaPub.N.BitLen()})
 	nS := r.Pick(160, 1500)
-	for _, c := range []*idConf{rsaConsO, rsaConsP, rsaInconsP, rsaInconsO} {
+	for _, c := range []*idConf{rsaConsO, rsaConsP, rsaInconsP, rsaInconsO, rsa2500Cons, rsa2052Cons, rsaOddIncons, rsaOddIncons2} {
 		batches = append(batches, sampleBatch(r, c, nS, 6))
 	}
 	for _, c := range []*idConf{crossER, crossRE, edCons2, edIncons2, edCons, edIncons} {
